@@ -332,7 +332,7 @@ func c09CheckIpos(a vh.Args, o *vh.Oracle, r *vh.Result, c *c09Case) error {
 	} else {
 		r.Dist("store:healthy")
 	}
-	r.Sample(map[string]interface{}{"kind": "ipos", "shape": c.Shape, "chunks": len(c.Sizes), "blob_len": len(vh.UnHex(c.BlobHex)), "ops": len(c.Ops), "faults": len(c.Faults), "impl_tail": tail(obs, 60)})
+	r.Sample(map[string]interface{}{"kind": "ipos", "shape": c.Shape, "chunks": len(c.Sizes), "blob_len": len(vh.UnHex(c.BlobHex)), "ops": len(c.Ops), "faults": len(c.Faults), "impl_tail": c09Tail(obs, 60)})
 	if failAt >= 0 {
 		sc := c09ShrinkIpos(c, cls)
 		r.Fail("predicate", cls, what, sc)
@@ -350,7 +350,7 @@ func c09CheckIpos(a vh.Args, o *vh.Oracle, r *vh.Result, c *c09Case) error {
 		c.Model = ans
 		r.Corr()
 		if ans != obs {
-			r.Fail("corr", "corr:C09/history", fmt.Sprintf("model and implementation differ: first difference at %s", firstDiff(ans, obs)), c)
+			r.Fail("corr", "corr:C09/history", fmt.Sprintf("model and implementation differ: first difference at %s", c09FirstDiff(ans, obs)), c)
 		}
 	}
 	return nil
@@ -386,18 +386,18 @@ func c09ShrinkIpos(c *c09Case, cls string) *c09Case {
 	return &best
 }
 
-func tail(s string, n int) string {
+func c09Tail(s string, n int) string {
 	if len(s) <= n {
 		return s
 	}
 	return "..." + s[len(s)-n:]
 }
 
-func firstDiff(a, b string) string {
+func c09FirstDiff(a, b string) string {
 	as, bs := strings.Split(a, ","), strings.Split(b, ",")
 	for i := 0; i < len(as) && i < len(bs); i++ {
 		if as[i] != bs[i] {
-			return fmt.Sprintf("op %d: model %s, implementation %s", i, tail(as[i], 80), tail(bs[i], 80))
+			return fmt.Sprintf("op %d: model %s, implementation %s", i, c09Tail(as[i], 80), c09Tail(bs[i], 80))
 		}
 	}
 	return fmt.Sprintf("length: model %d results, implementation %d", len(as), len(bs))
@@ -684,7 +684,7 @@ func c09CheckFuse(a vh.Args, o *vh.Oracle, r *vh.Result, c *c09Case) error {
 	r.Dist("kind:fuse")
 	r.Dist("shape:" + c.Shape)
 	r.Dist("handles:" + strconv.Itoa(c.NH))
-	r.Sample(map[string]interface{}{"kind": "fuse", "shape": c.Shape, "chunks": len(c.Sizes), "handles": c.NH, "requests": len(c.Reqs), "impl_tail": tail(obs, 60)})
+	r.Sample(map[string]interface{}{"kind": "fuse", "shape": c.Shape, "chunks": len(c.Sizes), "handles": c.NH, "requests": len(c.Reqs), "impl_tail": c09Tail(obs, 60)})
 	if failAt >= 0 {
 		c.FailAt = failAt
 		if failAt+1 < len(c.Reqs) && !hung {
@@ -710,7 +710,7 @@ func c09CheckFuse(a vh.Args, o *vh.Oracle, r *vh.Result, c *c09Case) error {
 		c.Model = ans
 		r.Corr()
 		if ans != obs {
-			r.Fail("corr", "corr:C09/fuse", fmt.Sprintf("model and implementation differ: first difference at %s", firstDiff(ans, obs)), c)
+			r.Fail("corr", "corr:C09/fuse", fmt.Sprintf("model and implementation differ: first difference at %s", c09FirstDiff(ans, obs)), c)
 		}
 	}
 	return nil
@@ -765,7 +765,7 @@ func c09CheckCLI(a vh.Args, r *vh.Result, c *c09Case) error {
 	args = append(args, ifile, ofile)
 	rc := runCmd(bin, args...)
 	got, _ := os.ReadFile(ofile)
-	c.Got = fmt.Sprintf("rc=%d out=%s", rc, tail(vh.Hex(got), 40))
+	c.Got = fmt.Sprintf("rc=%d out=%s", rc, c09Tail(vh.Hex(got), 40))
 	r.Count(fmt.Sprintf("cli|%s|%d|%d|%v", c.BlobHex, c.CLIOff, c.CLILen, c.Missing), true)
 	r.Dist("kind:cli")
 	// expectation from the blob alone
